@@ -222,6 +222,7 @@ func TestVerifC13Load(t *testing.T) {
 	nInvalid := c13InvalidNested(out, factories)
 	nInvalid += c13DefaultsProbe(out, factories, nInvalid)
 	nInvalid += c13ServiceProbe(out, factories, nInvalid)
+	nInvalid += c13StrictAll(out, factories, nInvalid)
 	for _, c := range vCases(vN(300)) {
 		if c < nInvalid {
 			continue // case indices 0..nInvalid-1 are the corpus of invalid nested values
@@ -310,6 +311,9 @@ func TestVerifC13Load(t *testing.T) {
 			queried := map[string]bool{}
 			for _, l := range in.leaves {
 				touched[strings.SplitN(l.path, "::", 2)[0]] = true
+				if l.null {
+					continue
+				}
 				queried[l.path] = true
 				if l.secret {
 					wS[vHex(l.path)] = "!" + vHex(l.v.(string))
@@ -361,7 +365,23 @@ func TestVerifC13Load(t *testing.T) {
 				out.Linef("op typedef type=%s def=%s", vHex(kindKey), c13Pairs(defS))
 				out.Linef("obs typedef")
 			}
-			out.Linef("op inst id=%s type=%s w=%s q=%s", vHex(in.id()), vHex(kindKey), c13Pairs(wS), q)
+			// `omitempty` positions that hold the zero value of their Go type in the loaded instance (reflect.Value.IsZero, the
+			// encoder's own test): an implementation-observed input of the model
+			var zs []string
+			loadedV := reflect.ValueOf(c13Loaded(cfg, in.section)[id])
+			for p := range queried {
+				if c13Omit[kindKey][p] {
+					if fv := c13FieldAt(loadedV, strings.Split(p, "::")); fv.IsValid() && fv.IsZero() {
+						zs = append(zs, vHex(p))
+					}
+				}
+			}
+			sort.Strings(zs)
+			z := "-"
+			if len(zs) > 0 {
+				z = strings.Join(zs, ",")
+			}
+			out.Linef("op inst id=%s type=%s w=%s q=%s z=%s", vHex(in.id()), vHex(kindKey), c13Pairs(wS), q, z)
 			out.Linef("obs eff %s", c13Pairs(gotS))
 			// the same instance against the Lean decode/encode model on the regenerated schema and default
 			c13Faith(out, in, got, defFlat[in.section+"/"+in.typ], leafPaths[in.section+"/"+in.typ])
@@ -378,8 +398,22 @@ func TestVerifC13Load(t *testing.T) {
 					vHex(fmt.Sprintf("%+v", loaded)), vHex(fmt.Sprintf("%+v", iso)))
 			}
 			for _, l := range in.leaves {
+				if l.null && kindKey == "receivers/otlp" && (l.path == "protocols::grpc" || l.path == "protocols::http") {
+					// `protocols: {grpc: }` enables the protocol with its defaults
+					if v, present := got[l.path]; present && v == nil {
+						out.Linef("viol sig=C13/load/null-optional-not-enabled/%s/%s id=%s", kindKey, l.path, in.id())
+					}
+				}
 				g, ok := got[l.path]
 				switch {
+				case l.null:
+				case !ok && c13Omit[kindKey][l.path] && c13ZeroAt(loadedV, l.path):
+					// `omitempty`: a written zero value is left out of the effective configuration. Harmless when the factory
+					// default does not show the setting either; misleading when the default is a non-zero value
+					if dv, inDef := defFlat[kindKey][l.path]; inDef && !c13IsZeroText(strings.ToLower(c13Norm(dv))) {
+						out.Linef("viol sig=C13/effective/written-zero-hidden-by-omitempty-over-nonzero-default/%s/%s id=%s default=%v", kindKey, l.path, in.id(), dv)
+					}
+					out.Linef("stat written_zero_omitted_by_omitempty 1")
 				case !ok:
 					out.Linef("viol sig=C13/effective/written-key-not-reflected id=%s/%s path=%s", in.section, in.id(), l.path)
 				case l.secret:
@@ -628,8 +662,11 @@ func c13Faith(out *vOut, in *c13Inst, got map[string]any, def map[string]any, le
 	}
 	for _, l := range in.leaves {
 		writtenTop[strings.SplitN(l.path, "::", 2)[0]] = true
-		if l.list {
+		if l.list || l.null {
 			continue
+		}
+		if _, shown := got[l.path]; !shown && c13Omit[in.section+"/"+in.typ][l.path] {
+			continue // dropped by `omitempty` (modelled in the flat overlay, `op inst … z=`; the key-space model has no omitempty)
 		}
 		w[vHex(l.path)] = id(l.want())
 		// the queried position: the leaf itself, or the map-kind leaf above it (headers::authorization → headers)
@@ -672,8 +709,8 @@ func c13Faith(out *vOut, in *c13Inst, got map[string]any, def map[string]any, le
 		for _, proto := range []string{"grpc", "http"} {
 			set := false
 			for _, l := range in.leaves {
-				if strings.HasPrefix(l.path, "protocols::"+proto+"::") {
-					set = true
+				if strings.HasPrefix(l.path, "protocols::"+proto+"::") || l.path == "protocols::"+proto || l.path == "protocols" {
+					set = true // written below it, or as an explicit null (IsSet is true for a null)
 				}
 			}
 			if q := "protocols::" + proto + "::endpoint"; !set && leaves[q] {
@@ -753,6 +790,12 @@ func c13Setup(t *testing.T, factories otelcol.Factories) (kinds []string, toggle
 				toggles[k] = append(toggles[k], c13Toggle{p, rv.Float() + 1})
 			}
 		}
+	}
+	c13Omit = map[string]map[string]bool{}
+	for _, k := range kinds {
+		st := strings.SplitN(k, "/", 2)
+		c13Omit[k] = map[string]bool{}
+		c13OmitPaths(reflect.TypeOf(c13Factory(factories, st[0], st[1]).CreateDefaultConfig()), nil, 0, false, c13Omit[k])
 	}
 	c13Cands = map[string][]c13Cand{}
 	for _, k := range kinds {
@@ -933,6 +976,28 @@ func c13DefaultsProbe(out *vOut, factories otelcol.Factories, first int) int {
 		out.Linef("case %d defaults-probe=%s", first+i, k)
 		out.Linef("op inst id=%s def=- w=-", vHex("defaults-probe/"+k))
 		out.Linef("obs eff -")
+		if i == 0 {
+			// generator bookkeeping: every text kind of the built-in configurations needs a table of valid texts (so that the
+			// MarshalText/UnmarshalText round trip of EVERY text kind is exercised); settings rejected when written alone
+			var miss []string
+			for ty := range c13TextMissing {
+				miss = append(miss, ty)
+			}
+			sort.Strings(miss)
+			for _, ty := range miss {
+				out.Linef("viol sig=C13/gen/text-kind-without-value-table/%s", ty)
+			}
+			sort.Strings(c13CandRejected)
+			for _, r := range c13CandRejected {
+				out.Linef("tr candidate-rejected-alone %s", strings.ReplaceAll(r, " ", "_"))
+			}
+			out.Linef("stat generator_settings_rejected_when_written_alone %d", len(c13CandRejected))
+			total := 0
+			for _, cs := range c13Cands {
+				total += len(cs)
+			}
+			out.Linef("stat generator_type_driven_settings %d", total)
+		}
 		a, b := f.CreateDefaultConfig(), f.CreateDefaultConfig()
 		pristine := c13DeepRender(reflect.ValueOf(b), 0)
 		shared := map[string]bool{}
@@ -1289,7 +1354,22 @@ type c13Cand struct {
 	gen  func(rnd *rand.Rand, secret func() string, inst int) []c13WLeaf
 }
 
+func c13ZeroAt(cfg reflect.Value, path string) bool {
+	fv := c13FieldAt(cfg, strings.Split(path, "::"))
+	return fv.IsValid() && fv.IsZero()
+}
+
+// c13IsZeroText: the lower-cased rendering of a Go zero value (what `omitempty` drops)
+func c13IsZeroText(s string) bool {
+	switch s {
+	case "false", "0", "", "[]", "map[]", "<nil>":
+		return true
+	}
+	return false
+}
+
 var (
+	c13Omit         map[string]map[string]bool // per component type: leaf paths tagged omitempty
 	c13Cands        map[string][]c13Cand
 	c13CandRejected []string
 	c13TextMissing  = map[string]bool{}
@@ -1300,23 +1380,29 @@ var c13TextValues = map[string]struct {
 	vals []string
 	enum bool
 }{
-	"configtelemetry.Level":      {[]string{"none", "basic", "normal", "detailed"}, true},
-	"configcompression.Type":     {[]string{"gzip", "zstd", "snappy", "zlib", "deflate", "none"}, false},
-	"component.ID":               {[]string{"nop", "nop/x1", "file_storage/q"}, false},
-	"request.SizerType":          {[]string{"items", "bytes", "requests"}, false},
-	"confignet.TransportType":    {[]string{"tcp", "udp", "unix"}, false},
-	"component.Type":             {[]string{"nop", "otlp"}, false},
-	"pipeline.ID":                {[]string{"traces", "metrics/x"}, false},
-	"configtls.TLSVersion":       {[]string{"1.2", "1.3"}, false},
-	"exporterhelper.SizerType":   {[]string{"items", "bytes", "requests"}, false},
-	"configcompression.Level":    {[]string{"1", "5"}, false},
-	"configmiddleware.Config":    {nil, false},
-	"configoptional.Optional[T]": {nil, false},
+	"configtelemetry.Level":         {[]string{"none", "basic", "normal", "detailed"}, true},
+	"configcompression.Type":        {[]string{"gzip", "zstd", "snappy", "zlib", "deflate", "none"}, false},
+	"component.ID":                  {[]string{"nop", "nop/x1", "file_storage/q"}, false},
+	"request.SizerType":             {[]string{"items", "bytes", "requests"}, false},
+	"confignet.TransportType":       {[]string{"tcp", "udp", "unix"}, false},
+	"component.Type":                {[]string{"nop", "otlp"}, false},
+	"pipeline.ID":                   {[]string{"traces", "metrics/x"}, false},
+	"configtls.TLSVersion":          {[]string{"1.2", "1.3"}, false},
+	"exporterhelper.SizerType":      {[]string{"items", "bytes", "requests"}, false},
+	"configcompression.Level":       {[]string{"1", "5"}, false},
+	"otlphttpexporter.EncodingType": {[]string{"proto", "json"}, false},
+	"configmiddleware.Config":       {nil, false},
+	"configoptional.Optional[T]":    {nil, false},
 }
 
 var c13DurationT = reflect.TypeOf(time.Duration(0))
 
 func c13Candidates(t reflect.Type, path []string, depth int, out *[]c13Cand) {
+	if t.Kind() == reflect.Pointer && t.Elem().Kind() == reflect.Struct && len(path) > 0 && !reflect.PointerTo(t.Elem()).Implements(c13TextUnm) {
+		// an optional section written as an explicit YAML null (`grpc:` with nothing after it — the canonical OTLP receiver form)
+		np := strings.Join(path, "::")
+		*out = append(*out, c13Cand{np, func(*rand.Rand, func() string, int) []c13WLeaf { return []c13WLeaf{{path: np, v: nil, null: true}} }})
+	}
 	for t.Kind() == reflect.Pointer && t != c13OpaqueT {
 		t = t.Elem()
 	}
@@ -1424,4 +1510,90 @@ func c13OtelconfPosition(pos []string) bool {
 		}
 	}
 	return false
+}
+
+// ---- an unknown key at EVERY struct position of EVERY otelcorecol factory's configuration type ----------------
+// positions through struct fields, optionals, squashed structs, slice elements ("[]") and map values ("*"), loaded
+// through the real collector configuration loading.
+
+func c13Positions(t reflect.Type, path []string, depth int, out *[][]string) {
+	for t.Kind() == reflect.Pointer && t != c13OpaqueT {
+		t = t.Elem()
+	}
+	if depth > 10 || reflect.PointerTo(t).Implements(c13TextUnm) {
+		return
+	}
+	switch t.Kind() {
+	case reflect.Struct:
+		*out = append(*out, append([]string{}, path...))
+		w := &c13SchemaW{}
+		for _, f := range w.fields(t, reflect.Value{}, path) {
+			c13Positions(f.t, append(append([]string{}, path...), f.key), depth+1, out)
+		}
+	case reflect.Slice, reflect.Array:
+		c13Positions(t.Elem(), append(append([]string{}, path...), "[]"), depth+1, out)
+	case reflect.Map:
+		if t.Key().Kind() == reflect.String {
+			c13Positions(t.Elem(), append(append([]string{}, path...), "*"), depth+1, out)
+		}
+	}
+}
+
+// c13DocAt builds the written configuration that has `leaf` at the position.
+func c13DocAt(pos []string, leaf map[string]any) any {
+	if len(pos) == 0 {
+		return leaf
+	}
+	rest := c13DocAt(pos[1:], leaf)
+	switch pos[0] {
+	case "[]":
+		return []any{rest}
+	case "*":
+		return map[string]any{"mk": rest}
+	}
+	return map[string]any{pos[0]: rest}
+}
+
+func c13StrictAll(out *vOut, factories otelcol.Factories, first int) int {
+	kinds := make([]string, 0, len(c13Catalog))
+	for k := range c13Catalog {
+		kinds = append(kinds, k)
+	}
+	sort.Strings(kinds)
+	for i, k := range kinds {
+		st := strings.SplitN(k, "/", 2)
+		out.Linef("case %d strict-all=%s", first+i, k)
+		out.Linef("op inst id=%s def=- w=-", vHex("strict-all/"+k))
+		out.Linef("obs eff -")
+		var positions [][]string
+		c13Positions(reflect.TypeOf(c13Factory(factories, st[0], st[1]).CreateDefaultConfig()), nil, 0, &positions)
+		for _, pos := range positions {
+			doc, _ := c13DocAt(pos, map[string]any{"zz_unknown_key": 1}).(map[string]any)
+			root := map[string]any{
+				"receivers": map[string]any{"nop": map[string]any{}}, "exporters": map[string]any{"nop": map[string]any{}},
+				"service": map[string]any{"pipelines": map[string]any{"traces": map[string]any{"receivers": []any{"nop"}, "exporters": []any{"nop"}}}},
+			}
+			sec, _ := root[st[0]].(map[string]any)
+			if sec == nil {
+				sec = map[string]any{}
+				root[st[0]] = sec
+			}
+			sec[st[1]+"/probe"] = doc
+			what := k + "/" + strings.Join(pos, "::")
+			_, err := c13LoadJSON(factories, root)
+			switch {
+			case err == nil:
+				out.Linef("viol sig=C13/strict/unknown-key-accepted/%s", what)
+			case strings.HasPrefix(err.Error(), "PANIC"):
+				out.Linef("viol sig=C13/strict/unknown-key-panics/%s err=%s", what, vHex(err.Error()))
+			case !strings.Contains(err.Error(), "zz_unknown_key"):
+				out.Linef("viol sig=C13/strict/error-does-not-name-key/%s err=%s", what, vHex(err.Error()))
+			}
+		}
+		out.Linef("stat strict_all_positions %d", len(positions))
+		out.Linef("nt")
+		out.Linef("end")
+		out.Flush()
+	}
+	return len(kinds)
 }
